@@ -387,7 +387,6 @@ func segPolicy(tier string, c *caseSpec, b *built, seqPart bool) (wsgen.SegOpt, 
 	}
 	if thorough {
 		o.StructFrames = 4
-		o.DoubleFrames = 2
 	}
 	if b.nFrames > 4096 {
 		// the receiver is quadratic in the number of frames per Parse call: chunked feeds; the
